@@ -623,10 +623,11 @@ class Joiner:
                 X2.apply_delta(_merge_deltas(ctx))
                 if X2.dead:
                     return None
-            return self._delta0(X2, None, sx, like=X)
+            # what the definition itself contributes must survive the cap on the number of facts
+            return self._delta0(X2, None, sx, like=X, first=[f for f in X2.facts if f not in X.facts])
         return self._delta(X, _merge_deltas(tuple(ctx) + ((wx[v],) if v in wx else ())), sx)
 
-    def _delta0(self, X, extra, sx, like=None, prefer=None):
+    def _delta0(self, X, extra, sx, like=None, prefer=None, first=None):
         J = self.J
         iv = {}
         side_a = (like if like is not None else X) is self.A
@@ -659,6 +660,9 @@ class Joiner:
             iv = dict(list(iv.items())[:64])
         if prefer and len(facts) > 24:
             facts.sort(key=lambda f_: 0 if any(s_ in prefer for s_ in f_.t) else 1)
+        if first and len(facts) > 24:
+            ff = {(f_.rename(sx) if any(s_ in sx for s_ in f_.t) else f_) for f_ in first}
+            facts.sort(key=lambda f_: 0 if f_ in ff else 1)
         facts = facts[:24]
         gen = {}
         for s in iv:
